@@ -291,6 +291,14 @@ def core_option_sets(ctx, n_random):
     return sets
 
 
+def _concrete(ctx, src, subset, found_by):
+    """a model / implementation tie broke on this program: is the behaviour different on it?  (a concrete failing input)"""
+    d, m, err = check_one(src, subset)
+    if d:
+        ctx.add_violation({'input': {'source': src, 'options': subset}, 'what': 'minified program behaves differently (%s): ' % ','.join(subset) + '; '.join(d),
+                           'observed': (m or '')[:400], 'found_by': found_by, 'oracle': 'differential-execution', 'shapes': shapes_of(src, subset)})
+
+
 def renaming_application(ctx, progs, found_by):
     """(C) tie for T01.13: minify(P, rename_locals only) must be the module the Lean model `renModule` builds from P and the
     renaming read off the output, and that renaming must satisfy the theorem's side condition `modOK`"""
@@ -326,10 +334,12 @@ def renaming_application(ctx, progs, found_by):
             ctx.mark_nontrivial('renast|' + ident)
         if model != out:
             ctx.add_broken('correspondence', 'rename.applyast:' + ident, 'the model of applying the renaming prints %r, minify() prints %r (source %r)' % (model[:300], out[:300], src[:300]))
+            _concrete(ctx, src, ['rename_locals'], 'renaming-application')
         else:
             same += 1
         if flag != 'OK 1':
             ctx.add_broken('correspondence', 'rename.modOK:' + ident, 'the renaming minify() chose does not satisfy the side condition of T01.13: %r in %r' % (w, src[:400]))
+            _concrete(ctx, src, ['rename_locals'], 'renaming-application')
         else:
             ok += 1
     ctx.stage('renaming-application:' + found_by, cases=len(meta), same_text=same, side_condition_holds=ok, with_renamed_names=renamed)
@@ -406,6 +416,7 @@ def minify_application(ctx, progs, found_by):
             ctx.mark_nontrivial('minast|%s|%s' % (mode, ident))
         if model != out:
             ctx.add_broken('correspondence', 'min.apply:%s:%s' % (mode, ident), 'the model pipeline prints %r, minify() prints %r (source %r)' % (model[:300], out[:300], src[:300]))
+            _concrete(ctx, src, ['rename_locals', 'hoist_literals'] if mode == 'rename+hoist' else list(DEFAULT_ON), 'minify-application')
         else:
             st['same_text'] += 1
         if flag in ('OK 1 1', 'OK 1 1 1'):
@@ -415,6 +426,7 @@ def minify_application(ctx, progs, found_by):
             ctx.bump('out_of_model', 'hoisted-literal-in-debug-test')
         else:
             ctx.add_broken('correspondence', 'min.conditions:%s:%s' % (mode, ident), 'the renaming / hoisting minify() chose does not satisfy the side conditions of T01.13 / T01.14 (%s): %r in %r' % (flag, w, src[:400]))
+            _concrete(ctx, src, ['rename_locals', 'hoist_literals'] if mode == 'rename+hoist' else list(DEFAULT_ON), 'minify-application')
     for mode, st in stats.items():
         ctx.stage('minify-application:%s:%s' % (mode, found_by), **st)
 
